@@ -65,7 +65,10 @@ def _run_variant(variant, fkey, lab, path, allowed, want_observed):
     """-> dict(to, issues, drift, unsupported) for one name class."""
     act, args = json.loads(lab)
     ctx = B.Ctx(variant)
-    out = {"variant": variant, "issues": [], "to": None, "unsupported": False, "drift": None}
+    out = {"variant": variant, "issues": [], "to": None, "unsupported": False, "drift": None, "not_run": False}
+    if variant in B.RT_ONLY_CLASSES and act not in B.RT_ACTS:
+        out["not_run"] = True
+        return out
     try:
         _replay(ctx, path)
     except Exception as ex:  # the history itself was validated for the plain class only
@@ -207,6 +210,8 @@ def explore(graph: TGraph, run, variants, *, nproc=None, budget=None, seed=0, sa
                 plain = outs[0]
                 plain_issues = {k for k, _ in plain["issues"]}
                 for o in outs:
+                    if o["not_run"]:
+                        continue
                     stats["cases"] += 1
                     if o["unsupported"]:
                         stats["unsupported"] += 1
